@@ -47,7 +47,7 @@ impl Avail for Missing {
     }
 }
 
-const MAX_OBS: usize = 200_000;
+const MAX_OBS: usize = 40_000;
 
 #[derive(Default)]
 struct Rec {
